@@ -16,9 +16,13 @@ package oxia
 
 import (
 	"context"
+	"log/slog"
 	"testing"
 
 	"github.com/stretchr/testify/assert"
+
+	"github.com/oxia-db/oxia/common/concurrent"
+	"github.com/oxia-db/oxia/proto"
 )
 
 func TestNotificationsClose(t *testing.T) {
@@ -48,4 +52,29 @@ func TestNotificationsClose(t *testing.T) {
 	n, ok := <-nm.multiplexCh
 	assert.Equal(t, false, ok)
 	assert.Nil(t, n)
+}
+
+func TestNotificationsResumeFromEmptyShard(t *testing.T) {
+	nm := &notifications{
+		initWaitGroup: concurrent.NewWaitGroup(1),
+		multiplexCh:   make(chan *Notification, 100),
+	}
+	snm := &shardNotificationsManager{
+		ctx:                context.Background(),
+		nm:                 nm,
+		lastOffsetReceived: -1,
+		log:                slog.Default(),
+	}
+
+	// Nothing received yet: the server has to tell where the shard is
+	assert.Nil(t, snm.startOffsetExclusive())
+
+	// The first (empty) batch of a shard without any entry carries the commit offset -1
+	assert.NoError(t, snm.multiplexNotificationBatch(&proto.NotificationBatch{Offset: -1}))
+
+	// When the stream breaks now, the subscriber has to resume after -1: with no offset the
+	// server would position it on its current commit offset and skip what was written in between
+	offset := snm.startOffsetExclusive()
+	assert.NotNil(t, offset)
+	assert.EqualValues(t, -1, *offset)
 }
